@@ -109,7 +109,7 @@ def do_run(sel=""):
         row = {}
         try:
             subprocess.run(["git", "-C", dst, "apply", patch], check=True)
-            env = dict(ENV, VERIF_REPO=dst)
+            env = dict(ENV, VERIF_REPO=dst, VERIF_NO_RETRY="1")  # (the matrix only asks "exit 1 or not"; no second attempts)
             order = [p for p in props if p == target] + [p for p in props if p != target]
             for p in order:
                 t0 = time.time()
